@@ -68,7 +68,7 @@ func init() {
 func c06Insts() []Inst {
 	var out []Inst
 	for k1 := int64(0); k1 <= 2; k1++ {
-		for k2 := int64(0); k2 <= 2; k2++ {
+		for k2 := int64(0); k2 <= 3; k2++ {
 			for o := int64(0); o <= 1; o++ {
 				out = append(out, inst("gateway", "VH_C06_gw", k1, k2, o))
 			}
